@@ -6,7 +6,7 @@ from prov import Prov, params_of, field_names
 
 CLAIM = ("(ROLE) every `added_X` accessor iterates the NEW ontology (rhs) and looks each item up in the OLD one (lhs), keeping it iff the lookup is none; "
          "`removed_X` the converse; `changed_X` iterates lhs, looks up rhs and builds the delta from (lhs item, rhs item); each accessor stays within its "
-         "own entity kind; HpoTermDelta computes removed parents as lhs\\rhs and added parents as rhs\\lhs, AnnotationDelta added terms as rhs filtered "
+         "own entity kind; HpoTermDelta computes removed parents as lhs\\rhs and added parents as rhs\\lhs (as HashSet::difference or as filter-not-contains), both operands being the DIRECT parents, AnnotationDelta added terms as rhs filtered "
          "by !lhs.contains and removed terms the converse; (COVER) the 'is changed' decision of HpoTermDelta::new depends on name, parents, obsolete and "
          "replacement of BOTH sides, that of AnnotationDelta::delta on added terms, removed terms and both names.")
 NOT_DECIDED = "exactness of the reported lists on all pairs of ontologies; HpoTermDelta compares RESOLVED replacement terms (two unresolvable replacement ids compare equal) - an observation, not armed."
@@ -103,23 +103,46 @@ def run(ck, prog, ctx):
         need = {(x, p) for x in ("name", "parents", "obsolete", "replacement") for p in (1, 2)}
         miss = sorted(need - pairs)
         ck.ob("COVER", "HpoTermDelta/decision", not miss, "the changed-decision of HpoTermDelta::new depends on %d/8 (attribute, side) pairs%s" % (len(need & pairs), "" if not miss else "; missing: %s" % [(a, "lhs" if p == 1 else "rhs") for a, p in miss]), where=hd.where())
-        diffs = [(bi, t) for bi, t in hd.calls() if t.callee.method == "difference"]
         agg = [s for _, s in hd.stmts() if s.k == "assign" and s.rv["k"] == "agg" and s.rv.get("adt", "").endswith("HpoTermDelta")]
-        if not diffs or not agg:
-            ck.undecided("ROLE", "HpoTermDelta/parents", "set differences / struct construction not recognised", where=hd.where())
+        DIRECT = {"parents", "parent_ids"}
+
+        def acc_of(atoms):
+            return {a[1].rsplit("::", 1)[-1] for a in atoms if a[0] == "call" and a[1].startswith("term::hpoterm::HpoTerm::")} - {"id"}
+
+        # the two accepted forms of a set subtraction A \\ B:  A.difference(&B)   and   A.iter().filter(|x| !B.contains(x))
+        subs = {}
+        for bi, t in hd.calls():
+            if t.callee.method == "difference":
+                A, B = pv.of_operand(hd, t.args[0]), pv.of_operand(hd, t.args[1])
+                subs[bi] = (params_of(A, hd.id), params_of(B, hd.id), acc_of(A), acc_of(B), -1)
+            elif t.callee.trait == "std::iter::Iterator" and t.callee.method == "filter":
+                A = pv.of_operand(hd, t.args[0])
+                cb = prog.bodies.get(pv.closure_of_operand(hd, t.args[1]))
+                if cb is None:
+                    continue
+                cont = [(cbi, ct) for cbi, ct in cb.calls() if ct.callee.method == "contains"]
+                if len(cont) != 1:
+                    continue
+                B = pv.of_operand(cb, cont[0][1].args[0])
+                pol, _ = bool_polarity(cb, pvn, lambda c: c.method == "contains")
+                subs[bi] = (params_of(A, hd.id), params_of(B, hd.id), acc_of(A), acc_of(B), pol)
+        if not subs or not agg:
+            ck.undecided("ROLE", "HpoTermDelta/parents", "set subtraction (difference / filter-not-contains) or struct construction not recognised", where=hd.where())
         else:
-            order = {}
-            for bi, t in diffs:
-                r = params_of(pv.of_operand(hd, t.args[0]), hd.id)
-                a = params_of(pv.of_operand(hd, t.args[1]), hd.id)
-                order[bi] = (r, a)
             st = agg[0]
+            nm = {frozenset({1}): "lhs", frozenset({2}): "rhs"}
             for fld, want in (("removed_parents", ({1}, {2})), ("added_parents", ({2}, {1}))):
                 op = st.rv["ops"][st.rv["fields"].index(fld)]
                 at = pvn.of_operand(hd, op)
-                used = [order[a[4]] for a in at if a[0] == "call" and a[1].endswith("::difference") and a[4] in order]
-                ok = used and all(u == want for u in used)
-                ck.ob("ROLE", "HpoTermDelta/" + fld, bool(ok), "%s = %s" % (fld, " / ".join("%s \\ %s" % ("lhs" if u[0] == {1} else "rhs" if u[0] == {2} else sorted(u[0]), "lhs" if u[1] == {1} else "rhs" if u[1] == {2} else sorted(u[1])) for u in used) or "?"), where=hd.where(st.line))
+                used = [subs[a[4]] for a in at if a[0] == "call" and a[3] == hd.id and a[4] in subs]
+                if not used:
+                    ck.undecided("ROLE", "HpoTermDelta/" + fld, "%s is not built by a recognised set subtraction" % fld, where=hd.where(st.line))
+                    continue
+                ok = all((u[0], u[1]) == want and u[4] == -1 for u in used)
+                desc = " / ".join("%s \\ %s%s" % (nm.get(frozenset(u[0]), sorted(u[0])), nm.get(frozenset(u[1]), sorted(u[1])), "" if u[4] == -1 else " (membership test NOT negated)") for u in used)
+                ck.ob("ROLE", "HpoTermDelta/" + fld, ok, "%s = %s" % (fld, desc), where=hd.where(st.line))
+                okd = all(u[2] and u[3] and u[2] <= DIRECT and u[3] <= DIRECT for u in used)
+                ck.ob("ROLE", "HpoTermDelta/%s/direct" % fld, okd, "%s subtracts %s from %s (both must be the DIRECT parents)" % (fld, " / ".join(str(sorted(u[3])) for u in used), " / ".join(str(sorted(u[2])) for u in used)), where=hd.where(st.line))
 
     # ------------------------------------------------------------------ AnnotationDelta
     ad = prog.body("ontology::comparison::AnnotationDelta::delta")
